@@ -14,7 +14,8 @@ The Kani unit k11_keyparse checks the un-cut real function on every valid UTF-8 
 """
 import re
 
-from vlib.verus import VerusFile, Contract, Clause, sub, lit, rule
+from vlib.verus import VerusFile, Contract, Clause, Undecided, sub, lit, rule
+from vlib.extract import match_close
 
 NAME = "c11_keyparse"
 ENGINE = "verus"
@@ -23,6 +24,7 @@ KEY = "src/descriptor/key.rs"
 DROPPED = [
     "c11_keyparse: parse_key_origin is cut after the slice expression: `let mut parts = s[1..].split(']');` becomes `let parts_src: &str = &s[1..];` and the rest of the body (split / fingerprint / derivation path parsing) is replaced by `key_origin_tail(s, parts_src)` with an arbitrary result (R9); nothing is claimed about the tail",
     "c11_keyparse: the guard loop `for ch in s.as_bytes()` gets a ghost iterator name and an invariant (R10)",
+    "c11_keyparse: a guard written `s.as_bytes().iter().any(|&b| BODY)` instead of the `for` loop -> the loop that Iterator::any is over a slice iterator (R14: elements in order, stops at the first hit; BODY verbatim), carrying the same invariant; trusted std semantics of slice::Iter / Iterator::any, declared only when the rewrite fires",
     "c11_keyparse: DescriptorPublicKey::from_str's `key_part[0..2]` is NOT covered here (the key part is produced by the cut-off tail); it is covered, bounded, by k11_keyparse's clause accepted_key_part_is_ascii",
 ]
 
@@ -96,6 +98,89 @@ def cut_tail(text):
     return text[:m.start()] + ghost + "let parts_src: &str = &" + m.group(1) + ";\n    key_origin_tail(s, parts_src)\n" + text[end:]
 
 
+def _postfix_receiver_start(text, end):
+    """start of the postfix expression (`a.b(c)[d]::e` chain) that ends right before `end`"""
+    pairs = {")": "(", "]": "["}
+    j = end
+    while True:
+        while j > 0 and text[j - 1].isspace():
+            j -= 1
+        if j > 0 and text[j - 1] in pairs:
+            depth, opener, closer = 0, pairs[text[j - 1]], text[j - 1]
+            while j > 0:
+                j -= 1
+                if text[j] == closer:
+                    depth += 1
+                elif text[j] == opener:
+                    depth -= 1
+                    if depth == 0:
+                        break
+            if depth != 0:
+                return None
+            continue                                  # the callee / indexed expression is in front of the group
+        k = j
+        while k > 0 and (text[k - 1].isalnum() or text[k - 1] == "_"):
+            k -= 1
+        if k == j:
+            return None
+        j = k
+        back = text[:j].rstrip()
+        if back.endswith("."):
+            j = len(back) - 1
+        elif back.endswith("::"):
+            j = len(back) - 2
+        else:
+            return j
+
+
+# the loop that std's Iterator::any is over a slice iterator: elements in order, stop at the first one the closure accepts.  /verif text with the
+# unit's invariant (every byte the closure let through is < 128); the closure body is kept verbatim
+ANY_LOOP = """{
+        let any_xs_ = %(recv)s;
+        let mut any_result_: bool = false;
+        let mut any_i_: usize = 0;
+        while any_i_ < any_xs_.len()
+            invariant_except_break
+                !any_result_,
+            invariant
+                any_i_ <= any_xs_.len(), any_xs_@ == s.spec_bytes(),
+                forall|j: int| 0 <= j < any_i_ ==> #[trigger] s.spec_bytes()[j] < 128,
+            ensures
+                any_result_ || all_ascii(s.spec_bytes()),
+            decreases any_xs_.len() - any_i_,
+        {
+            let %(bind)s;
+            let any_hit_: bool = %(body)s;
+            if any_hit_ {
+                any_result_ = true;
+                break;
+            }
+            any_i_ += 1;
+        }
+        any_result_
+    }"""
+
+
+@rule("R14-slice-iter-any")
+def guard_any_to_loop(text):
+    """`RECV.iter().any(|x| BODY)` / `|&x| BODY` over the byte slice -> the loop that Iterator::any is (ANY_LOOP), BODY verbatim.  Optional: absent when the
+    guard is written as a `for` loop."""
+    m = re.search(r"\.iter\(\)\s*\.any\(\s*\|\s*(&?)\s*(\w+)\s*\|\s*", text)
+    if not m:
+        return text
+    open_ = text.index("(", text.index("any", m.start()))
+    close = match_close(text, open_)
+    body = text[m.end():close].strip()
+    start = _postfix_receiver_start(text, m.start())
+    if start is None:
+        raise Undecided("parse_key_origin: receiver of `.iter().any(..)` not recognised (shape not modelled)")
+    if re.search(r"\breturn\b|\?", re.sub(r"//[^\n]*", "", body)):
+        raise Undecided("parse_key_origin: the closure of `.any(..)` leaves through return / `?` (cannot be inlined)")
+    # `|&x|` binds the element itself (u8 is Copy), `|x|` a reference to it
+    bind = "%s = any_xs_[any_i_]" % m.group(2) if m.group(1) else "%s = &any_xs_[any_i_]" % m.group(2)
+    return text[:start] + ANY_LOOP % dict(recv=text[start:m.start()].strip(), bind=bind, body=body) + text[close + 1:]
+
+
 def build(repo):
     vf = VerusFile(NAME, repo)
     vf.raw(PRELUDE, keep_vis=True)
@@ -106,10 +191,11 @@ def build(repo):
     vf.raw(SPEC)
     vf.trust("key_origin_tail (external_body, no ensures)", "R9: the rest of parse_key_origin after the slice; arbitrary result")
     vf.trust("vstd's model of &str (spec_bytes = encode_utf8 of the characters; range-index precondition = in bounds and on character boundaries; utf8 lemmas)", "Verus standard library")
-    guard_inv = ("for ch in it: s.as_bytes()\n        invariant yields(it.seq(), s.spec_bytes(), 0), "
+    guard_inv = (r"for \1 in it: s.as_bytes()\2" "\n        invariant yields(it.seq(), s.spec_bytes(), 0), "
                  "forall|j: int| 0 <= j < it.index() ==> #[trigger] s.spec_bytes()[j] < 128,\n    {")
     vf.fn(KEY, "fn:parse_key_origin", props=PROPS, rewrites=[
-        sub("R10", r"for ch in s\.as_bytes\(\) \{", guard_inv, required=False),
+        sub("R10", r"for\s+(\w+)\s+in\s+s\s*\.as_bytes\(\)(\s*\.iter\(\))?\s*\{", guard_inv, required=False),
+        guard_any_to_loop,
         cut_tail,
     ], contract=Contract(ensures=[
         # the guard's job, stated from the property: text that gets past it has only one-byte characters, so every
@@ -120,4 +206,6 @@ def build(repo):
         # Harmless for C11 (they are ASCII, the slices stay safe, every later parser rejects them) -- see the report.
         Clause("guard_rejects_every_unprintable_character__INFO", (), "r is Ok ==> forall|i: int| 0 <= i < s.spec_bytes().len() ==> 0x20 <= #[trigger] s.spec_bytes()[i] <= 0x7e"),
     ]))
+    if any(r.startswith("R14-slice-iter-any") for r in vf.rewrites_used):
+        vf.trust("loop rewrite R14: `xs.iter().any(|x| BODY)` over a slice is `for x in xs { if BODY { return true } } false`", "std: slice::Iter yields the elements in order; Iterator::any stops at the first element the closure accepts")
     return vf
